@@ -12,6 +12,7 @@ import (
 
 	"github.com/hashicorp/raft"
 	raftboltdb "github.com/hashicorp/raft-boltdb/v2"
+	"github.com/influxdata/influxdb/pkg/verifhook"
 	"github.com/influxdata/influxdb/tcp"
 	"go.uber.org/zap"
 )
@@ -334,6 +335,12 @@ func (l *raftLayer) Addr() net.Addr {
 
 // Dial creates a new network connection.
 func (l *raftLayer) Dial(addr raft.ServerAddress, timeout time.Duration) (net.Conn, error) {
+	if verifhook.Enabled {
+		// the simulator may cut the link between this node and addr
+		if err := verifhook.Fault("meta.raft.dial", l.addr.String(), string(addr)); err != nil {
+			return nil, err
+		}
+	}
 	conn, err := tcp.DialTLSTimeout("tcp", string(addr), l.tlsC, timeout)
 	if err != nil {
 		return nil, err
